@@ -37,6 +37,9 @@ dotted tail in the same list). -/
 def PatOK (ps : List Pat) : Prop :=
   wfList ps = true ∧ (Pat.varsList ps).Nodup ∧ ∀ s ∈ Pat.litsList ps, s ∉ Pat.varsList ps
 
+instance (ps : List Pat) : Decidable (PatOK ps) := by unfold PatOK; infer_instance
+instance (f : Sexp) : Decidable (userForm f) := by unfold userForm; infer_instance
+
 /-- `match_exact`: if `matchP` (= `match_list_pattern` + `collect_bindings`) succeeds on a user form, then
 instantiating the pattern read as a template (`tmplList`) under the collected bindings gives exactly the
 form back (so every pattern variable is bound to exactly the matched sub-forms, at the right ellipsis
@@ -93,15 +96,21 @@ theorem match_literal (sc : List Name) (s : Name) (f : Sexp) :
     matchSingle sc (.lit s) f = true ↔ (∃ m, f = .id s m ∧ s ∉ sc) ∨ f = .kw .ellipsis := by
   cases f with
   | id n m =>
-      simp only [matchSingle, Bool.and_eq_true, Bool.not_eq_true', List.contains_eq_false]
+      simp only [matchSingle, Bool.and_eq_true, Bool.not_eq_true']
       constructor
       · rintro ⟨h1, h2⟩
         have : n = s := by simpa [name_beq_iff] using h1
         subst this
-        exact Or.inl ⟨m, rfl, by simpa using h2⟩
+        refine Or.inl ⟨m, rfl, fun hmem => ?_⟩
+        have : sc.contains n = true := by simpa [List.contains_iff_mem] using hmem
+        rw [this] at h2
+        cases h2
       · rintro (⟨m', h1, h2⟩ | h)
         · cases h1
-          exact ⟨by simp, by simpa using h2⟩
+          refine ⟨by simp, ?_⟩
+          cases hc : sc.contains s with
+          | false => rfl
+          | true => exact absurd (by simpa [List.contains_iff_mem] using hc) h2
         · cases h
   | kw k => cases k <;> simp [matchSingle]
   | int i => simp [matchSingle]
@@ -201,21 +210,17 @@ def witnessD : Prog :=
         lst [sx "list", lst [.kw .let_, lst [lst [sx "x", .int 1]], sx "x"], sx "x"])],
       lst [sx "m"]] }
 
-set_option maxRecDepth 100000 in
 /-- ¬`G.b`: nested templates introduce the same spelling and exchange identifiers. -/
-theorem not_hygiene_b : (classify 40 witnessB).b = true ∧ hygienicAt 40 witnessB = false := by decide
+theorem not_hygiene_b : (classify 40 witnessB).b = true ∧ hygienicAt 40 witnessB = false := by decide +kernel
 
-set_option maxRecDepth 100000 in
 /-- ¬`G.a`: a use-site binder is spelled like a free identifier of the template. -/
-theorem not_hygiene_a : (classify 40 witnessA).a = true ∧ hygienicAt 40 witnessA = false := by decide
+theorem not_hygiene_a : (classify 40 witnessA).a = true ∧ hygienicAt 40 witnessA = false := by decide +kernel
 
-set_option maxRecDepth 100000 in
 /-- ¬`G.c`: a literal that a template passes on is shadowed at the use site. -/
-theorem not_hygiene_c : (classify 40 witnessC).c = true ∧ hygienicAt 40 witnessC = false := by decide
+theorem not_hygiene_c : (classify 40 witnessC).c = true ∧ hygienicAt 40 witnessC = false := by decide +kernel
 
-set_option maxRecDepth 100000 in
 /-- ¬`G.d`: a template uses the spelling of its own binder outside the binder's scope. -/
-theorem not_hygiene_d : (classify 40 witnessD).d = true ∧ hygienicAt 40 witnessD = false := by decide
+theorem not_hygiene_d : (classify 40 witnessD).d = true ∧ hygienicAt 40 witnessD = false := by decide +kernel
 
 /-- The full hygiene statement does not hold for the mechanism (D8). -/
 theorem not_hygiene : ¬ Hygiene := fun h => by
@@ -286,12 +291,12 @@ example : (matchP [] [.var (nm "a"), .var (nm "b"), .rest (.var (nm "r"))]
 example : matchSingle [] (.lit (nm "else")) (sx "else") = true ∧
     matchSingle [nm "else"] (.lit (nm "else")) (sx "else") = false := by decide
 
-set_option maxRecDepth 100000 in
-/-- The guard is satisfiable and inside it M and S agree on a program that needs renaming:
-`(let ((tmp 5)) (or2 #f tmp))`. -/
-example :
-    let p : Prog := { globals := [nm "list"],
-      forms := [defOr2, lst [.kw .let_, lst [lst [sx "tmp", .int 5]], lst [sx "or2", .bool false, sx "tmp"]]] }
-    G 40 p = true ∧ hygienicAt 40 p = true := by decide
+/-- `(let ((tmp 5)) (or2 #f tmp))` — a user variable spelled like the template's binder. -/
+def insideG : Prog :=
+  { globals := [nm "list"],
+    forms := [defOr2, lst [.kw .let_, lst [lst [sx "tmp", .int 5]], lst [sx "or2", .bool false, sx "tmp"]]] }
+
+/-- The guard is satisfiable and inside it M and S agree on a program that needs the renaming. -/
+example : G 40 insideG = true ∧ hygienicAt 40 insideG = true := by decide +kernel
 
 end SteelVerif.C13
